@@ -60,12 +60,19 @@ func plainAnswer(zone string) dns.RR { return recSpec{T: "A", Owner: "plain", V:
 // libraryRounds: receiver side = the library (Transfer.In / Conn.ReadMsg), one connection.
 func libraryRounds(c xferCase, o *outServer, cli *endpoint) error {
 	k := &keepOpen{endpoint: cli}
+	var shared *dns.Transfer // Reuse: one Transfer value for every transfer of the sequence
 	for i, kind := range c.rounds() {
 		id := c.QID + uint16(i)
 		k.reopen()
 		switch kind {
 		case "xfr":
-			tr := newTransfer(c, nil)
+			tr := shared
+			if tr == nil {
+				tr = newTransfer(c, nil)
+				if c.Reuse > 0 {
+					shared = tr
+				}
+			}
 			tr.Conn = &dns.Conn{Conn: k}
 			q := c.query()
 			q.Id = id
@@ -79,6 +86,9 @@ func libraryRounds(c xferCase, o *outServer, cli *endpoint) error {
 			round := int32(i)
 			r := collectUntil(ch, k, watchdog, 0, func() bool { return atomic.LoadInt32(&o.handled) > round && cli.readerIdle() })
 			if err := checkComplete(c, r); err != nil {
+				if c.Reuse > 0 {
+					return pbt.Errf("request %d (%s) on the same connection, made with the same dns.Transfer value as the earlier transfers: %v", i, kind, err)
+				}
 				return pbt.Errf("request %d (%s) on the same connection: %v", i, kind, err)
 			}
 		default:
